@@ -193,6 +193,14 @@ def rnd_parts(rng):
             # (content, mode, encoding) tuples: only mode None - per-part mode *names* are not part of the
             # documented interface (prepare_data expects internal constants there)
             parts.append((c, None, rng.choice(['utf-8', None, 'latin1', 'cp1252'])))
+    # degenerate-but-legal parts: an empty string / bytes part, the integer 0, a one-part list
+    r = rng.random()
+    if r < 0.12:
+        parts.insert(rng.randint(0, len(parts)), rng.choice(['', b'', 0, 0, ('', None), (0, None)]))
+    elif r < 0.18:
+        parts = [parts[0], rng.choice(['', b'', 0])] if rng.random() < 0.5 else [rng.choice(['', 0]), parts[0]]
+    elif r < 0.22:
+        parts = parts[:1]
     return parts
 
 
